@@ -26,7 +26,7 @@ import (
 // ---- part 1: the queue itself, driven event by event on a virtual clock -----------
 
 type qAction struct {
-	Op string `json:"op"` // put | get | release | requeue | sleep
+	Op string `json:"op"` // put | get | release | requeue | sleep | stale_release
 	K  int    `json:"k,omitempty"`
 	V  int    `json:"v,omitempty"`
 	D  int64  `json:"d,omitempty"` // sleep duration / requeue offset from now (ns, may be negative)
@@ -57,9 +57,10 @@ func runQueueCase(t *testing.T, actions []qAction) (obs []qObs, flags map[string
 		now := func() int64 { return int64(time.Since(start)) }
 
 		held := map[int]*cruntime.VerifQueueItem[int, int]{}
+		stale := map[int]*cruntime.VerifQueueItem[int, int]{} // already released/requeued: a further Release must be a no-op
 		// Go-side monitor state (independent of the Coq model)
-		fresh := map[int]int{}       // latest Put since last delivery
-		req := map[int][2]int64{}    // requeued (value, notBefore) since last delivery
+		fresh := map[int]int{}         // latest Put since last delivery
+		req := map[int][2]int64{}      // requeued (value, notBefore) since last delivery
 		pendingCount := func() int64 { // pending + held-back, as the property words it
 			n := int64(0)
 
@@ -161,6 +162,7 @@ func runQueueCase(t *testing.T, actions []qAction) (obs []qObs, flags map[string
 
 				_, v := it.Get()
 				delete(held, a.K)
+				stale[a.K] = it
 
 				after := "None"
 
@@ -179,6 +181,16 @@ func runQueueCase(t *testing.T, actions []qAction) (obs []qObs, flags map[string
 
 				synctest.Wait()
 				obs = append(obs, qObs{fmt.Sprintf("ERelease %s %s %s %s", coqN(uint64(a.K)), coqN(uint64(v)), after, coqZ(now())), "None", q.Len()})
+			case "stale_release":
+				// runReconcile's `defer item.Release()` after an explicit Requeue: documented as a no-op
+				if it, ok := stale[a.K]; ok {
+					it.Release()
+					synctest.Wait()
+
+					flags["release_after_requeue"] = true
+				}
+
+				continue
 			case "sleep":
 				time.Sleep(time.Duration(a.D))
 				synctest.Wait()
@@ -240,6 +252,15 @@ func genQueueCase(r *rng, n int) []qAction {
 			}
 
 			delete(held, k)
+
+			if r.chance(1, 2) {
+				// the deferred Release of runReconcile, possibly after other events got in between
+				if r.chance(1, 2) {
+					acts = append(acts, qAction{Op: "get"})
+				}
+
+				acts = append(acts, qAction{Op: "stale_release", K: k})
+			}
 		default:
 			acts = append(acts, qAction{Op: "sleep", D: pick(r, durs)})
 		}
@@ -253,7 +274,7 @@ func enumQueueCases(length int) [][]qAction {
 	alphabet := []qAction{
 		{Op: "put", K: 0}, {Op: "put", K: 1}, {Op: "get"},
 		{Op: "release", K: 0}, {Op: "requeue", K: 0, D: 5e6}, {Op: "requeue", K: 1, D: -1e6},
-		{Op: "sleep", D: 5e6},
+		{Op: "sleep", D: 5e6}, {Op: "stale_release", K: 0},
 	}
 
 	var (
